@@ -28,7 +28,7 @@ ASSUMPTIONS = ['vt/ref/exact.py (Sturm isolation, exact evaluation) is right',
 TIERS = {
     'quick': {'shards': 14, 'random': 12000, 'timeout': 600, 'min_cases': 8000,
               'require_branches': ['z:on-curve', 'z:far', 'z:near', 'z:centre-of-curvature', 'z:beyond-end',
-                                   'kind:path', 'extreme:interior-min', 'extreme:endpoint-min']},
+                                   'kind:path', 'extreme:interior-min', 'extreme:endpoint-min', 'requery-after-mutation']},
     'thorough': {'shards': 14, 'random': 400000, 'timeout': 3000, 'min_cases': 200000,
                  'require_branches': ['z:on-curve', 'z:far', 'z:near', 'z:centre-of-curvature', 'z:beyond-end',
                                       'kind:path', 'extreme:interior-min', 'extreme:endpoint-min']},
@@ -292,7 +292,20 @@ def run_case(ctx, case):
     if case['kind'] == 'seg':
         s = gen.seg(case['seg'])
         s.radialrange(z)
-        P.Path(s).radialrange(z)
+        pth = P.Path(s)
+        pth.radialrange(z)
+        # the same object, same query point, after its control points were reassigned
+        ctx.branch('requery-after-mutation')
+        d = (complex(s.end) - complex(s.start)) or 1 + 1j
+        if type(s).__name__ == 'QuadraticBezier':
+            s.control = s.control + 0.7j * d
+        elif type(s).__name__ == 'CubicBezier':
+            s.control1 = s.control1 - 0.6j * d
+            s.control2 = s.control2 + 0.9 * d
+        s.radialrange(z)
+        pth.end = complex(s.end) + 0.5 * d
+        pth.radialrange(z)
+        s.radialrange(z)
     else:
         ctx.branch('kind:path')
         p = gen.path(case['segs'])
